@@ -46,6 +46,11 @@ func init() {
 	register("exprs", family{gen: genExprCase, run: runRunnerCase})
 	register("cmdargs", family{gen: genCmdArgsCase, run: runRunnerCase})
 	register("concurrent", family{gen: genConcurrent, run: runConcurrent})
+	renderCfg := flowCfg
+	renderCfg.wLine, renderCfg.wOpts, renderCfg.wSet, renderCfg.wCmd, renderCfg.wStop, renderCfg.wJump, renderCfg.faultPct, renderCfg.exprDepth = 9, 7, 3, 0, 0, 1, 3, 3
+	register("render", family{gen: func(r *rand.Rand, tier string) *sx.Node {
+		return genRunnerCase(r, renderCfg, opsCfg{steps: 30, extraAfterEnd: 1})
+	}, run: runRunnerCase})
 	layCfg := flowCfg
 	layCfg.faultPct = 0
 	register("layout", family{gen: func(r *rand.Rand, tier string) *sx.Node {
